@@ -341,6 +341,7 @@ class Manager:
         self._connection = None
         self._made_first_connection = False
         self._stopped = OneShotObserver(self._eventual_queue)
+        self._has_stopped = False
         self._debug_stall_connector = False
 
         self._next_dilation_generation = 0
@@ -678,6 +679,11 @@ class Manager:
 
     # subchannel maintenance
     def allocate_subchannel_id(self):
+        if self._has_stopped:
+            # a connect() whose turn comes after we have stopped: its
+            # subchannel could never carry anything, and nobody would ever
+            # tell its protocol connectionLost
+            raise WormholeClosed("the wormhole was closed")
         scid_num = self._next_subchannel_id
         self._next_subchannel_id += 2
         return scid_num
@@ -859,7 +865,12 @@ class Manager:
 
     @m.output()
     def notify_stopped(self):
+        self._has_stopped = True
         self._inbound.stopped()
+        # connect()/listen()/when_dilated() calls which still wait for
+        # Dilation to be established will never see that happen
+        self._main_channel.error_if_not_fired(
+            failure.Failure(WormholeClosed("the wormhole was closed")))
         self._stopped.fire(None)
 
     @m.output()
